@@ -233,12 +233,17 @@ claim(
     "C05",
     "Bounded model checking (Kani/CBMC) of the per-host clock algebra (HostTimer) against a harness-controlled tokio clock: for symbolic "
     "registration offset, epoch base, two tick lengths and in-step progress, elapsed = sum of ticks + progress, sim_elapsed = offset + "
-    "elapsed, since_epoch = epoch + sim_elapsed, and the values are monotone across the step boundary.",
+    "elapsed, since_epoch = epoch + sim_elapsed, and the values are monotone across the step boundary; the clock does not depend on "
+    "the runtime's clock origin (bounce). REGISTRATION through the real Sim::host / Sim::client (tokio executor model, no step "
+    "executed): a host or client registered after the simulation has run for a symbolic number of milliseconds, with a symbolic "
+    "epoch, starts at host time zero with sim time = simulation time at registration and epoch time = configured epoch + sim time.",
     "NARROW CLAIM: that Sim::step ticks every registered host exactly once per step, that host code only observes times inside its step "
     "window, timer firing instants and crash/bounce continuity live in Sim::step / Rt::tick, which need a tokio runtime and are NOT "
-    "covered. The check detects breakage of the clock algebra only.",
-    ["host::HostTimer::{new, tick, now, elapsed, sim_elapsed, since_epoch}"],
-    "Bounds: offsets and ticks in whole ms (u32 / u16), progress < 1 ms in ns, two steps; unwind 4.",
+    "covered. The check detects breakage of the clock algebra and of the clock a newly registered host is given.",
+    ["host::HostTimer::{new, tick, now, elapsed, sim_elapsed, since_epoch}", "sim::Sim::{new, host, client}", "world::World::{new, register}",
+     "rt::Rt::{host, client}"],
+    "Bounds: offsets and ticks in whole ms (u32 / u16), progress < 1 ms in ns, two steps; unwind 4. Registration: one host, elapsed "
+    "simulation time < 2^32 ms, epoch < 2^32 s, rng words in {0, MAX}; unwind 34.",
     "Sim::step, Rt::tick, tokio timers, crash/bounce",
     CORE_ASSUME,
 )
@@ -332,24 +337,74 @@ claim(
     "and of an unknown operation: the target is removed without being executed and replaced by exactly one -ECANCELED completion plus "
     "one 0 completion for the cancel (or one -ENOENT), every other submission keeps exactly one pending completion; (3) pop_ready "
     "yields exactly the visible completions, each once, never one whose latency has not elapsed, for every outcome of the shuffle "
-    "(symbolic rng), and ready_cq_count equals the number that can be drained.",
-    "NARROW CLAIM: only the ring accounting. Submit-side draining (submit.rs), the CompletionQueue iterator, AsyncFd readiness and above "
-    "all the parity of read/write/fsync effects with the synchronous file API and the crash clause need the simulated filesystem, whose "
-    "simplest history (create, write, read) did not finish symbolic execution in 10 minutes (std::path component parsing over "
-    "PathBufs stored inside the pending-operation enum); they are NOT covered. Notify::notify_waiters is stubbed to a no-op.",
-    ["sim::RingState::{new, schedule, post_immediate_error, cancel, ready_cq_count, promote_ready, pop_ready}"],
+    "(symbolic rng), and ready_cq_count equals the number that can be drained. (4) EFFECT PARITY of read and write: the completion-time "
+    "executors exec_write / exec_read run against a real turmoil-fs Fs (std::path model) and are compared with Fs::write_file / "
+    "read_file / file_len on a twin filesystem - same CQE result, same bytes (symbolic contents, offset 0..1), same length, the tail "
+    "of the buffer untouched; a bad fd completes with -EBADF and neither buffer nor filesystem is touched.",
+    "NARROW CLAIM: the ring accounting and the read/write executors with all fault knobs off. Submit-side draining (submit.rs: latency "
+    "sampling, page-cache probing), the CompletionQueue iterator, AsyncFd readiness, fsync parity (Fs::sync_file has no verdict under "
+    "Kani, DESIGN.md section 1), O_DIRECT alignment, the probabilistic faults and the crash clause are NOT covered. "
+    "Notify::notify_waiters is stubbed to a no-op; turmoil-fs is built against the std::path model of /verif/models/path.",
+    ["sim::RingState::{new, schedule, post_immediate_error, cancel, ready_cq_count, promote_ready, pop_ready}",
+     "sim::{exec_read, exec_write, sample_prob}", "turmoil_fs::Fs::{new, alloc_fd, write_file, read_file, file_len, check_space}"],
     "Bounds: 3 entries in the ring; cancel target and (for pop_ready) completion instants concrete per instance, other instants and "
     "the rng symbolic; unwind 8.",
     "submit / SQ draining, CQ iteration, fs effects (exec_read/exec_write/exec_fsync), crash, multi-ring interleavings",
     COMMON_ASSUME[:1] + ["the crate is built against the REAL tokio; tokio::sync::Notify::notify_waiters is stubbed (wake-up plumbing)"] + COMMON_ASSUME[2:],
 )
 
-NOT_APPLICABLE["C07"] = (
-    "crash durability is decided by turmoil-fs's pending-operation log (a Vec of an enum holding PathBufs and byte vectors) and "
-    "std::path comparisons; measured: the simplest history through the real Fs (create_file, write_file, file_exists, file_len, "
-    "read_file on '/f') did not finish symbolic execution in 10 minutes at unwind 5 (pointers stored inside a data-carrying enum lose "
-    "their provenance in CBMC, so every Path comparison re-parses symbolic bytes); std cannot be replaced by a model and Kani cannot "
-    "name the PartialEq impl of Path/Components in a stub; nothing is claimed rather than a check that cannot finish")
-NOT_APPLICABLE["C10"] = (
-    "same encoding obstacle as C07 (pending-operation log + std::path over PathBuf-keyed tables; simplest create/write/read history: no "
-    "verdict in 10 minutes); the truncate-then-extend read_file suspicion recorded in DESIGN.md §4 is therefore not decided by a check")
+FS_ASSUME = [
+    "std::path::{Path, PathBuf} are replaced, for crates/turmoil-fs/src/lib.rs only, by the inline-storage model /verif/models/path "
+    "(the one import line is rewritten in the scratch overlay; validated against std::path on every normalised path of at most 6 bytes "
+    "by models/validate_path in setup_cmd); paths are normalised, absolute, at most 6 bytes; the std/tokio shim modules (thin wrappers "
+    "around the Fs methods) are compiled out and are NOT covered",
+    COMMON_ASSUME[0],
+    COMMON_ASSUME[2],
+    "the Fs is built field by field with the values Fs::new uses, except that its rng returns symbolic words (every seed)",
+]
+
+claim(
+    "C10",
+    "Bounded model checking (Kani/CBMC) of the real turmoil-fs Fs (crates/turmoil-fs/src/lib.rs) against what a plain in-memory POSIX "
+    "file tree returns, on histories of 2-4 operations over concrete paths with SYMBOLIC file contents: a read returns what was "
+    "written (length, existence, contents); where writes overlap the later one wins - over synced data for every offset 0..2 incl. "
+    "reads at an offset and past the end, over pending data for the overwrite and the append offset; a truncation discards the tail "
+    "for good: after truncate-then-extend the cut-off bytes read as zeros, also for a read that starts beyond the cut, and a partial "
+    "truncation keeps exactly the prefix, with the data pending or already synced (F-C10-1, fixed); a chain of two unsynced renames "
+    "keeps length and contents under the final name only; unlink removes and fails on a missing name; mkdir needs an existing parent "
+    "and a free name; a file removed and created again must be empty (F-C10-2: it is NOT - open known finding, reported as "
+    "KNOWN-FINDING).",
+    "NARROW CLAIM: the Fs core only (not the std / tokio shims, not io_uring, not latency / page cache / fault knobs), one host, files of "
+    "2-3 bytes, at most 4 pending operations and 2-4 queries per history (more ran out of memory at 8 GB, measured). 'Sync never "
+    "changes anything observable' is decided only by comparing the pending with the pre-synced (persisted) variants of the truncate / "
+    "overlay instances: every history THROUGH sync_file / sync_file_data / sync_dir, rename() followed by reads, rmdir, and three "
+    "pending operations with a symbolic offset had no verdict (out of memory / no result after 400-900 s, measured) - those instances "
+    "are kept in harness/turmoil-fs/lib.rs as tier=unshipped and are part of neither tier. Directory listings (std HashSet), hard "
+    "links and symlinks are not covered.",
+    ["Fs::{create_file_with_mode, write_file, set_file_len, read_file, file_len, file_exists, dir_exists, symlink_exists, unlink, mkdir_with_mode, "
+     "parent_exists, resolve_content_path, resolve_persisted_path, resolve_hardlink_target, path_renamed_to}"],
+    "Bounds: paths '/f' '/g' '/h' '/d' '/d/e' '/d/f' '/x/f'; 2-3 byte contents (symbolic), offsets 0..2, <= 4 pending ops; unwind 10.",
+    "shim::std / shim::tokio, io_uring, sync_* followed by reads, rename() followed by reads, rmdir, hard links, symlinks, dir_entries, "
+    "page cache, latency, fault injection, more than one host",
+    FS_ASSUME,
+)
+
+claim(
+    "C07",
+    "Bounded model checking (Kani/CBMC) of the real crash step of turmoil-fs (inductive-step style: the pre-state - durable inodes, durable "
+    "directory entries, pending log - is written directly): from a state with one durable file (symbolic contents), one orphan inode "
+    "whose entry was never synced, and one of five pending unsynced histories (overwrite + create, rename, remove, truncate, mkdir + "
+    "create inside), Fs::crash leaves exactly the durable image: the durable file with its last-synced contents and length, nothing "
+    "else, an empty pending log, inode tables holding exactly the durable objects. With a torn-write block size and the rng word "
+    "that lets no block survive, pending writes leave no trace and a write to a non-durable file leaves nothing.",
+    "NARROW CLAIM: Fs::crash (and the no-survivor path of apply_torn_writes) from directly constructed pre-states. The operations that "
+    "BUILD the durable image - sync_file, sync_file_data, sync_dir - had no verdict under Kani (drain + partition of the pending Vec of a "
+    "data-carrying enum: 5-6.6 GB and no verdict after 600-900 s, measured), nor had the torn-write instances in which one or both "
+    "blocks survive (rng word fixed or symbolic: 5.7 GB, no verdict after 500 s): those instances are kept in "
+    "harness/turmoil-fs/lib.rs as tier=unshipped and are part of neither tier. Random background sync (sync_probability), io_uring "
+    "fsync and the shims are not covered. A change confined to sync_* or to which torn prefix survives is NOT detected.",
+    ["Fs::{crash, apply_torn_writes, file_exists, dir_exists, file_len, read_file}"],
+    "Bounds: 2 persisted files of 2 symbolic bytes, <= 2 pending ops per instance (5 instances), block size 1 with rng word 0; unwind 10.",
+    "sync_file / sync_file_data / sync_dir, surviving torn blocks, sync_probability, io_uring, shims, files longer than 2 bytes",
+    FS_ASSUME,
+)
